@@ -134,7 +134,10 @@ pub fn parse_function_signature(
     let param_types = {
         let mut vec = Vec::new();
         for param in &fd.params {
-            let parsed_param = parse_paramtype(param, context)?;
+            // The default values of a function template may depend on the template parameters
+            // They are checked when the template is instantiated
+            let parse_default = fd.template_params.0.is_empty();
+            let parsed_param = parse_paramtype(param, parse_default, context)?;
 
             // const and other modifiers do not affect the signature type
             let type_id = strip_param_type(parsed_param.type_id, context);
@@ -185,7 +188,7 @@ pub fn parse_function_body(
     // This is the scope the signature was parsed in so names in array sizes and default values resolve the same way
     let mut parsed_params = Vec::with_capacity(fd.params.len());
     for ast_param in &fd.params {
-        parsed_params.push(parse_paramtype(ast_param, context)?);
+        parsed_params.push(parse_paramtype(ast_param, true, context)?);
     }
 
     let func_params = {
@@ -359,7 +362,11 @@ struct ParsedParam {
 }
 
 /// Parse a type used for a function parameter
-fn parse_paramtype(param: &ast::FunctionParam, context: &mut Context) -> TyperResult<ParsedParam> {
+fn parse_paramtype(
+    param: &ast::FunctionParam,
+    parse_default: bool,
+    context: &mut Context,
+) -> TyperResult<ParsedParam> {
     let param_type = &param.param_type;
     let ty = parse_type_for_usage(param_type, TypePosition::Parameter, context)?;
 
@@ -455,6 +462,7 @@ fn parse_paramtype(param: &ast::FunctionParam, context: &mut Context) -> TyperRe
     // Parse the default expression
     // TODO: Validate function declaration / definitions specify the default values in the right place
     let default_expr = match &param.default_expr {
+        Some(_) if !parse_default => None,
         Some(expr) => {
             // TODO: We do not currently handle the conversion to the parameter type
             let (ir_expr, expr_ty) = parse_expr(expr, context)?;
